@@ -66,3 +66,67 @@ func VerifC16ConditionalAppend() {
 	}
 	vCover("done")
 }
+
+// VerifC16AgainstRoll: the single publish loop of a partition is not alone on
+// the log: the cleaner loop rolls the active segment once it is older than
+// MaxSegmentAge. A conditional append (expecting the next offset) runs
+// concurrently with such a roll under the exploring scheduler; afterwards a
+// second publisher expecting the SAME offset must be refused, a publisher that
+// waives the check gets the next offset, and the log holds every offset once.
+func VerifC16AgainstRoll() {
+	dir := vTempDir()
+	opts := vOpts(dir, 1<<20)
+	opts.ConcurrencyControl = true
+	opts.MaxSegmentAge = 1000 // age-based roll once the (mocked) clock has moved on
+	now := int64(10)
+	timestamp = func() int64 { return now }
+	l, err := New(opts)
+	vAssert(err == nil, "New succeeds")
+	cl := l.(*commitLog)
+	_, err = l.Append([]*Message{{Value: []byte{1}, Timestamp: 1, MagicByte: 2, Offset: 0}})
+	vAssert(err == nil, "first conditional append (expects 0) is stored")
+	va := vNondetBytes("val", 1)
+	done := make(chan struct{}, 2)
+	var errA error
+	var offA []int64
+	vSchedExplore(vParam("preemptions", 1))
+	go func() { // publisher A expects offset 1
+		offA, errA = l.Append([]*Message{{Value: va, Timestamp: 2, MagicByte: 2, Offset: 1}})
+		done <- struct{}{}
+	}()
+	go func() { // the cleaner loop's tick
+		now = 5000
+		_, err := vRoll(cl)
+		vAssert(err == nil, "segment roll succeeds")
+		done <- struct{}{}
+	}()
+	<-done
+	<-done
+	vSchedExplore(0)
+	vAssert(errA == nil, "the publisher that expected the next offset is accepted")
+	if errA != nil {
+		return
+	}
+	vAssert(len(offA) == 1 && offA[0] == 1, "it is stored at the offset it expected")
+	// publisher B expects the same offset: refused
+	_, errB := l.Append([]*Message{{Value: []byte{7}, Timestamp: 3, MagicByte: 2, Offset: 1}})
+	vAssert(errB == ErrIncorrectOffset, "a second publisher expecting the same offset is refused")
+	// a publisher waiving the check gets the next offset
+	offC, errC := l.Append([]*Message{{Value: []byte{9}, Timestamp: 4, MagicByte: 2, Offset: -1}})
+	vAssert(errC == nil, "a publisher that waives the check is accepted")
+	if errC == nil {
+		vAssert(offC[0] == 2, "and gets the next offset, not one already handed out")
+	}
+	r, err := l.NewReader(0, true)
+	vAssert(err == nil, "NewReader succeeds")
+	buf := make([]byte, 28)
+	for i := int64(0); i < 3; i++ {
+		_, off, _, _, err := r.ReadMessage(vCtx(), buf)
+		vAssert(err == nil, "every accepted message is readable")
+		if err != nil {
+			return
+		}
+		vAssert(off == i, "the log holds every offset exactly once")
+	}
+	vCover("done")
+}
